@@ -75,7 +75,7 @@ def opt_values(name, dim, rng, tier):
     if name == "Stable":
         return [dict(alpha=a) for a in [0.3, 1.0, 1.5, 2.0] + [lu(0.3, 2.0) for _ in range(n_rand)]]
     if name == "Matern":
-        return [dict(nu=v) for v in [0.2, 0.5, 1.0, 2.5, 19.9, 20.0, 20.1, 30.0] + [lu(0.2, 20.0) for _ in range(n_rand)]]
+        return [dict(nu=v) for v in [0.2, 0.5, 1.0, 2.5, 19.9, 20.0, 20.1, 20.5, 25.0, 30.0] + [lu(0.2, 20.0) for _ in range(n_rand)]]
     if name == "Integral":
         return [dict(nu=v) for v in [0.01, 0.5, 1.0, 2.0, 10.0, 23.9998, 49.9, 50.0] + [lu(0.05, 50.0) for _ in range(n_rand)]]
     if name == "Rational":
@@ -535,12 +535,88 @@ def viol(ctx, stage, what, case, key):
 
 def probes(ctx, rng, drv=None):
     probe_history(ctx, rng, drv)
+    probe_dim_constructions(ctx, rng, drv)
     probe_closed_forms(ctx, rng)
     probe_identities(ctx, rng)
     probe_user_subclasses(ctx, rng)
     probe_scales(ctx, rng)
     probe_variants(ctx, rng)
 
+
+
+# ----------------------------------------------------------------------------------------------- temporal / lat-lon constructions
+# documented defaults of the optional arguments (docstrings), d = model.dim
+DOC_DEFAULTS = {
+    "Stable": lambda d: dict(alpha=1.5), "Matern": lambda d: dict(nu=1.0), "Integral": lambda d: dict(nu=1.0),
+    "Rational": lambda d: dict(alpha=1.0), "SuperSpherical": lambda d: dict(nu=(d - 1) / 2), "JBessel": lambda d: dict(nu=d / 2),
+    "TPLSimple": lambda d: dict(nu=(d + 1) / 2), "TPLGaussian": lambda d: dict(hurst=0.5, len_low=0.0),
+    "TPLExponential": lambda d: dict(hurst=0.25, len_low=0.0), "TPLStable": lambda d: dict(hurst=0.5, alpha=1.5, len_low=0.0),
+}
+DIM_LAGS = [0.0, 1e-9, 0.05, 0.3, 0.7, 0.95, 1.0, 1.3, 4.0]
+
+
+def probe_dim_constructions(ctx, rng, drv):
+    """every class built as spatio-temporal, lat-lon and lat-lon + temporal model (dim = spatial_dim + 1, 3, 4): the
+    documented formula and the documented defaults / bounds of the optional arguments use d = model.dim"""
+    import gstools as gs
+    mp, doc_cor, doc_correlation = doc_formulas()
+    builds = [dict(temporal=True, spatial_dim=1), dict(temporal=True, spatial_dim=2), dict(temporal=True, spatial_dim=3),
+              dict(latlon=True), dict(latlon=True, temporal=True)]
+    for name, code, _ in CLASSES:
+        for kw in builds:
+            geo = 1.0
+            for use_defaults in (True, False):
+                try:
+                    if use_defaults:
+                        m = getattr(gs, name)(var=1.7, len_scale=1.3, nugget=0.2, **kw)
+                        opt = DOC_DEFAULTS.get(name, lambda d: {})(m.dim)
+                        have = {o: float(getattr(m, o)) for o in m.opt_arg}
+                        if have != {k: float(v) for k, v in opt.items()}:
+                            viol(ctx, "dimension constructions", "%s(%s): default optional arguments %r differ from the documented ones %r for dim=%d"
+                                 % (name, kw, have, opt, m.dim), dict(cls=name, build=kw, dim=int(m.dim), got=have, documented=opt), "%s:default-opt-arg" % name)
+                            continue
+                    else:
+                        d = 3 if kw.get("latlon") else kw["spatial_dim"]
+                        d += int(bool(kw.get("temporal")))
+                        opts = opt_values(name, d, rng, "quick")
+                        opt = opts[int(rng.integers(len(opts)))]
+                        if not opt:
+                            continue
+                        m = getattr(gs, name)(var=1.7, len_scale=1.3, nugget=0.2, rescale=0.8, **kw, **opt)
+                except Exception as e:
+                    viol(ctx, "dimension constructions", "%s(%s) raised %r" % (name, kw, e), dict(cls=name, build=kw), "%s:construction-exception" % name)
+                    continue
+                dim = int(m.dim)
+                r = np.array(DIM_LAGS) * m.len_rescaled
+                with np.errstate(all="ignore"):
+                    corr = np.asarray(m.correlation(r), dtype=float)
+                    vario = np.asarray(m.variogram(r), dtype=float)
+                    corh = np.asarray(m.cor(np.array(DIM_LAGS)), dtype=float)
+                p = slots(name, opt)
+                pre = [("z", code), p[0], p[1], p[2], ("z", dim), float(m.var), float(m.len_scale), float(m.nugget), float(m.rescale)]
+                sill = m.var + m.nugget
+                for h, ri, c, g, ch in zip(DIM_LAGS, r, corr, vario, corh):
+                    ctx.count(("dimbuild", name, tuple(sorted(kw.items())), use_defaults, h) if h > 0 else None,
+                              hist=dict(stage="probe:dim-constructions", cls=name, dim=dim))
+                    ref = doc_correlation(name, ri, opt, dim, m.len_scale, m.rescale)
+                    e_c = abs(float(mp.mpf(float(c)) - ref)) if np.isfinite(c) else np.inf
+                    e_g = abs(float(mp.mpf(float(g)) - (m.var * (1 - ref) + m.nugget))) if np.isfinite(g) else np.inf
+                    if e_c > TOL or e_g > TOL * sill:
+                        viol(ctx, "dimension constructions",
+                             "%s(%s), dim=%d: correlation %r at h=%g differs from the documented formula with d = dim: %s" % (name, kw, dim, float(c), h, mp.nstr(ref, 17)),
+                             dict(cls=name, build=kw, dim=dim, opt=opt, var=float(m.var), len_scale=float(m.len_scale), nugget=float(m.nugget), rescale=float(m.rescale),
+                                  h=h, r=float(ri), correlation=float(c), variogram=float(g), documented_correlation=mp.nstr(ref, 30)),
+                             finding_key(name, opt, h, float(c), m) if finding_key(name, opt, h, float(c), m) != "%s:closed-form" % name else "%s:closed-form-dim" % name)
+                        break
+                    if drv is not None:
+                        got = drv.call("funcs", *pre, float(ri))
+                        gc = drv.call("cor", ("z", code), p[0], p[1], ("z", dim), float(h))
+                        if not (same(c, got[0]) and same(g, got[2], sill) and (same(ch, gc) or (name in TPL and opt.get("len_low", 0) > 0 and False))):
+                            viol(ctx, "dimension constructions",
+                                 "%s(%s), dim=%d: implementation and model (d = dim) differ at h=%g: correlation %r / %r, cor %r / %r" % (name, kw, dim, h, float(c), got[0], float(ch), gc),
+                                 dict(cls=name, build=kw, dim=dim, opt=opt, h=h, r=float(ri), impl=[float(c), float(g), float(ch)], model=[got[0], got[2], gc]),
+                                 "%s:model-dim" % name)
+                            break
 
 
 # ----------------------------------------------------------------------------------------------- histories on ONE object
@@ -857,6 +933,17 @@ def exact_integral_tpl(name, opt, len_scale, rescale, mp):
     return c * (lu ** (2 * H + 1) - ll ** (2 * H + 1)) / (lu ** (2 * H) - ll ** (2 * H))
 
 
+def matern_gt20_key(opt, got, lr, mp):
+    """the open finding on the unchanged tree is precisely: for nu > 20 the class still reports the Matern closed form
+    len_rescaled * sqrt(pi) * Gamma(nu+1/2) / (Gamma(nu) sqrt(nu)) (0.41% .. 0.62% below the integral sqrt(pi) * len_rescaled
+    of the Gaussian-limit correlation it evaluates).  Any other reported value gets the generic key."""
+    nu = mp.mpf(opt["nu"])
+    matern_form = float(lr * mp.sqrt(mp.pi) * mp.gamma(nu + mp.mpf(1) / 2) / (mp.gamma(nu) * mp.sqrt(nu)))
+    if abs(got - matern_form) <= 1e-9 * matern_form:
+        return "Matern:nu>20:integral-scale-keeps-matern-closed-form"
+    return "Matern:integral-scale"
+
+
 def probe_scales(ctx, rng):
     mp, doc_cor, doc_correlation = doc_formulas()
     mp.mp.dps = 30
@@ -865,7 +952,7 @@ def probe_scales(ctx, rng):
             if name != "HyperSpherical" and dim != primary_dim(name):
                 continue   # the scales do not depend on dim (only the bounds of the optional arguments do)
             opts = opt_values(name, dim, rng, ctx.tier)
-            if ctx.tier != "thorough":
+            if ctx.tier != "thorough" and name != "Matern":      # Matern: every nu, in particular 20.5, 25, 30 (switch at 20)
                 opts = opts[:: max(1, len(opts) // 6)]
             for oi, opt in enumerate(opts):
                 bp = base_params(rng, "quick")[1 if (oi + dim) % 2 else 2]
@@ -904,7 +991,7 @@ def probe_scales(ctx, rng):
                         # and far below any formula error (wrong factor / exponent).
                         tol = 1e-9 if closed else 1e-4
                         if not abs(got - float(ref)) <= tol * float(ref):
-                            key = ("Matern:nu>20:integral-scale" if (name == "Matern" and opt["nu"] > 20) else
+                            key = (matern_gt20_key(opt, got, lr, mp) if (name == "Matern" and opt["nu"] > 20) else
                                    "JBessel:integral-scale-quad" if name == "JBessel" else "%s:integral-scale" % name)
                             viol(ctx, "integral scale", "%s.integral_scale = %r but the integral of its documented correlation is %s" % (name, got, mp.nstr(ref, 15)),
                                  desc(name, dim, opt, bp, integral_scale=got, integral_of_correlation=mp.nstr(ref, 20)), key)
